@@ -21,6 +21,12 @@ type AtlasClient struct {
 	HTTPClient *http.Client
 }
 
+// noRedirect keeps the credentialed client on the URL it was given: a redirect would be
+// followed to any host, and the digest transport would answer that host's challenge.
+func noRedirect(req *http.Request, via []*http.Request) error {
+	return http.ErrUseLastResponse
+}
+
 func NewAtlasClient(httpClient *http.Client) *AtlasClient {
 	if httpClient == nil {
 		// Always use a new http.Client to avoid sharing the default client's Transport (which may be nil)
@@ -50,8 +56,9 @@ func (c *AtlasClient) getAtlasClusterInfo(ctx context.Context, publicKey, privat
 	client := c.HTTPClient
 	if client == http.DefaultClient {
 		client = &http.Client{
-			Transport: digestTransport,
-			Timeout:   c.HTTPClient.Timeout,
+			Transport:     digestTransport,
+			Timeout:       c.HTTPClient.Timeout,
+			CheckRedirect: noRedirect,
 		}
 	} else {
 		baseTransport := c.HTTPClient.Transport
@@ -60,8 +67,9 @@ func (c *AtlasClient) getAtlasClusterInfo(ctx context.Context, publicKey, privat
 		}
 		digestTransport.Transport = baseTransport
 		client = &http.Client{
-			Transport: digestTransport,
-			Timeout:   c.HTTPClient.Timeout,
+			Transport:     digestTransport,
+			Timeout:       c.HTTPClient.Timeout,
+			CheckRedirect: noRedirect,
 		}
 	}
 
@@ -150,8 +158,9 @@ func (c *AtlasClient) downloadClusterLogsForHost(ctx context.Context, publicKey,
 	client := c.HTTPClient
 	if client == http.DefaultClient {
 		client = &http.Client{
-			Transport: digestTransport,
-			Timeout:   c.HTTPClient.Timeout,
+			Transport:     digestTransport,
+			Timeout:       c.HTTPClient.Timeout,
+			CheckRedirect: noRedirect,
 		}
 	} else {
 		baseTransport := c.HTTPClient.Transport
@@ -160,8 +169,9 @@ func (c *AtlasClient) downloadClusterLogsForHost(ctx context.Context, publicKey,
 		}
 		digestTransport.Transport = baseTransport
 		client = &http.Client{
-			Transport: digestTransport,
-			Timeout:   c.HTTPClient.Timeout,
+			Transport:     digestTransport,
+			Timeout:       c.HTTPClient.Timeout,
+			CheckRedirect: noRedirect,
 		}
 	}
 
